@@ -94,7 +94,8 @@ def stack_case(draw, tier="quick", smart=False):
         else:
             steps.append([k, draw(st.sampled_from(ids))])
     return {"spec": spec, "fmt": fmt, "split": split, "mode": mode,
-            "first": first, "steps": steps, "smart": smart}
+            "first": first, "steps": steps, "smart": smart,
+            "reuse": draw(st.booleans())}
 
 
 class World:
@@ -120,8 +121,15 @@ class World:
         return len(gm.lefthand(g, rev))
 
     def open_stacked(self, smart=None):
-        return cf.open_branch(self.env, self.p("stacked"),
-                              self.smart if smart is None else smart)
+        smart = self.smart if smart is None else smart
+        if self.case.get("reuse") and not smart:
+            # one long-lived Branch object for all local steps (caches of the
+            # stacked repository survive from one operation to the next)
+            if getattr(self, "_stacked_obj", None) is None:
+                self._stacked_obj = cf.open_branch(self.env, self.p("stacked"),
+                                                   False)
+            return self._stacked_obj
+        return cf.open_branch(self.env, self.p("stacked"), smart)
 
     def setup(self):
         from breezy import branch as _b
